@@ -98,22 +98,22 @@ Definition resp_eqb (x y : resp Z) : bool :=
 Definition optresp_eqb (x y : option (resp Z)) : bool :=
   match x, y with None, None => true | Some a, Some b => resp_eqb a b | _, _ => false end.
 
-(** a case: the requests (thread i runs the i-th), the access sequence the real threads
+(** a case: whether the WSDL was built at start-up, the requests (thread i runs the i-th), the access sequence the real threads
     performed, what each real thread returned (None = did not finish / not modelled) and the
     number of build_interface_document executions *)
-Definition case := (list req * list (Z * Z * Z * Z) * list (Z * option (resp Z)) * Z)%type.
+Definition case := (bool * list req * list (Z * Z * Z * Z) * list (Z * option (resp Z)) * Z)%type.
 
 Definition model_of (v : variant) (c : case) :=
-  let '(rs, tr, res, nb) := c in
-  run_trace v (nth_req rs) (map (fun e => fst (fst (fst e))) tr) (cinit v (nth_req rs)).
+  let '(pre, rs, tr, res, nb) := c in
+  run_trace v (nth_req rs) (map (fun e => fst (fst (fst e))) tr) (cinit pre v (nth_req rs)).
 
 Definition corr_ok (v : variant) (c : case) : bool :=
-  let '(rs, tr, res, nb) := c in
+  let '(pre, rs, tr, res, nb) := c in
   match model_of v c with
   | Some (tr', s) =>
       list_eqb ev_eqb tr' tr &&
       forallb (fun p => optresp_eqb (out (thr s (fst p))) (snd p)) res &&
-      (b_gen s =? nb)
+      (b_gen s =? nb + (if pre then 1 else 0))
   | None => false
   end.
 
@@ -130,5 +130,5 @@ Fixpoint run_trace_partial (v : variant) (reqs : Z -> req) (sched : list Z) (s :
       end
   end.
 Definition corr_show (v : variant) (c : case) :=
-  let '(rs, tr, res, nb) := c in
-  run_trace_partial v (nth_req rs) (map (fun e => fst (fst (fst e))) tr) (cinit v (nth_req rs)).
+  let '(pre, rs, tr, res, nb) := c in
+  run_trace_partial v (nth_req rs) (map (fun e => fst (fst (fst e))) tr) (cinit pre v (nth_req rs)).
